@@ -5,14 +5,15 @@ go 1.20
 require (
 	github.com/cronokirby/saferith v0.33.0
 	github.com/decred/dcrd/dcrec/secp256k1/v4 v4.2.0
+	github.com/fxamacker/cbor/v2 v2.4.0
 	github.com/taurusgroup/multi-party-sig v0.0.0
 	github.com/zeebo/blake3 v0.2.3
 )
 
 require (
-	github.com/fxamacker/cbor/v2 v2.4.0 // indirect
 	github.com/klauspost/cpuid/v2 v2.2.5 // indirect
 	github.com/x448/float16 v0.8.4 // indirect
+	golang.org/x/sync v0.3.0 // indirect
 )
 
 replace github.com/taurusgroup/multi-party-sig => /repo
